@@ -52,6 +52,87 @@ CHECKS = {
              "no free-running race detector exists for Python to complement this. " + LIMITS,
         technique="pre-emption-bounded exhaustive schedule exploration (stateless model checking) of the implementation with a linearizability oracle",
         design="4/C10"),
+    "C03": dict(
+        level="exploration",
+        text="Three exhaustive families through every public entry point: all token strings up to the length bound; every single-edit corruption of every valid corpus call "
+             "(dimension, rank, tensor count, size keywords, one axis dropped/duplicated/renamed/bracketed, delimiters, arrows, commas, explicit sizes + rank/tuple-length errors); a "
+             "table of documented rules. No call may end in an internal exception type; calls that are ill-formed by an unambiguous criterion must raise a documented class with an "
+             "empty log of backend calls (tensors are ndarray subclasses that log every numpy API use).",
+        note="The ill-formedness criterion is deliberately narrow (RefSem parser / brute-force solver / tensor count / size type / rule table) so that lenient acceptance is never "
+             "called a violation. " + LIMITS,
+        technique="bounded exhaustive enumeration of token strings and single-edit corruptions through the real entry points with an instrumented tensor type",
+        design="4/C03"),
+    "C04": dict(
+        level="translation_validation",
+        text="Every compilation captured from the corpus calls and ALL well-typed IR programs up to K instructions over a menu of node kinds (built with the tracer's own "
+             "constructors, operands from any earlier value): the returned text is checked statically, executed in an empty namespace plus the constants its header lists, and "
+             "compared with the compiled function and with an independent node-by-node interpreter on results, mutable cells and the multiset of logged elementary calls.",
+        note="K<=2 over the full menu and K<=3 over a reduced menu (quick); nested definitions only arise in the synthetic programs (no vmap backend importable). " + LIMITS,
+        technique="exhaustive enumeration of small IR programs + captured real graphs, three-way comparison text / compiled function / reference interpreter",
+        design="4/C04"),
+    "C05": dict(
+        level="translation_validation",
+        text="Before/after graph pairs captured from every corpus call plus all synthetic chains of transposes (every pair of permutations up to rank 4/5, triples up to rank 3), "
+             "reshapes (all triples over ordered factorizations of 12 and 24), broadcasts, concatenations and mixed no-op chains, each with three sharing variants; both graphs are "
+             "interpreted on injective contents (C- and Fortran-ordered) and must agree on outputs, dtypes, shapes and in-place effects; pass count bounded; re-optimisation is a no-op.",
+        note="Only the optimisation list of the numpy backends; contents injective with pairwise distinct lengths. " + LIMITS,
+        technique="exhaustive enumeration of rewrite-pattern chains + captured real graphs, before/after comparison with a reference interpreter",
+        design="4/C05"),
+    "C07": dict(
+        level="exploration",
+        text="For each documented shorthand (omitted output, automatic brackets, numbers, anonymous ellipsis, written-out ellipsis, scalar size for an ellipsis axis, nested '->', "
+             "adjacent brackets, keepdims, unit coordinate bracket, extra blanks, rearrange) every corpus description to which it applies is called in the short and in the documented "
+             "long form on identical data; outcomes must be equal (values bytes-equal, same exception class).",
+        note="Long forms are produced by rewrites written from the documentation and applied only where the documented equivalence literally applies. " + LIMITS,
+        technique="bounded exhaustive enumeration of descriptions, metamorphic comparison of short and long form",
+        design="4/C07"),
+    "C08": dict(
+        level="exploration",
+        text="For every corpus call on two backends: three renamings, every admissible permutation of each input's items (tensor transposed), every admissible output permutation, "
+             "every grouping of adjacent un-bracketed items (tensor reshaped); for id all 28 expressions over a=2,b=3,c=2 give all ordered pairs (inversion) and all triples "
+             "(composition), plus split/concat pairs. Oracle-free: only the stated relations between outcomes.",
+        note="Integer contents; update_at targets are excluded from the permutation relations. " + LIMITS,
+        technique="bounded exhaustive enumeration with metamorphic relations (renaming, permutation, regrouping, inversion, composition)",
+        design="4/C08"),
+    "C09": dict(
+        level="exploration",
+        text="Every corpus call x backend x argument position x memory layout (C, Fortran-ordered view, strided view, negative-stride view, broadcast view, read-only) with byte/shape/"
+             "strides/dtype/flags snapshots of every argument, of the base of views and of size/option containers before and after; graph=True, solve_*/matches/check, adapters and "
+             "element-wise calls with 1-4 tensors included. Only the first tensor of *_at may change; a read-only non-target argument must not even make the call fail.",
+        note="Contents chosen per seed; dtypes int64/float64/bool. " + LIMITS,
+        technique="bounded exhaustive enumeration of calls x layouts x positions with before/after snapshots",
+        design="4/C09"),
+    "C13": dict(
+        level="model_checking",
+        text="For one operation per family and the small corpus: every argument position x 6 factory signatures x 5 behaviours (+ builtin), larger subsets with representative "
+             "variants; graph=True, first call and cached repeat; and all histories of length <= 3 over {call, graph=True, rejected call, ordinary-tensor call, other factory} from "
+             "empty compile caches. The invocation log must show exactly one invocation per executed call with the resolved tuple-of-int shape and only declared keywords.",
+        note="Caches are emptied through cache_clear() of every operation; factories return exactly the array of the ordinary call. " + LIMITS,
+        technique="exhaustive enumeration of factory variants and bounded call histories with an invocation-log oracle",
+        design="4/C13"),
+    "C15": dict(
+        level="exploration",
+        text="Instrumented user functions (reduce-style / element-wise, with keyword-only options, five kinds of misbehaviour) wrapped by the numpy adapters x the reduce and element-wise "
+             "corpus, compared with RefSem using the same function; recorded arguments; all histories of <= 2-3 calls over keyword values {2, 2.0, 3, True}; functions sharing module "
+             "and qualified name in every adaptation order; axis/keyword name clashes.",
+        note="adapt_with_vmap does not exist for numpy and is out of reach. " + LIMITS,
+        technique="bounded exhaustive enumeration of adapted calls and short keyword histories, differential against the reference loop semantics",
+        design="4/C15"),
+    "C16": dict(
+        level="model_checking",
+        text="(A) the corpus runs in one interpreter per PYTHONHASHSEED (own uuid draws), digests must agree; (B) with the compile cache disabled repeated graph=True requests and "
+             "executions must agree; (C) exhaustive exploration of the orders in which einx consumes unordered collections through a guarded hook (every permutation for <= 4 "
+             "elements, else reversal/rotations/transpositions), candidates are reported only after a real hash-seed pair reproduces them.",
+        note="Hooked sites: solver equation list, CSE candidates; address-dependent names (id()) vary only through the separate processes. " + LIMITS,
+        technique="exhaustive exploration of order choices at hooked choice points + whole-process replay under several hash seeds",
+        design="4/C16"),
+    "C17": dict(
+        level="exploration",
+        text="Every corpus description is compiled (graph=True) under every pair of size assignments from {distinct primes, x2, all-2, x3, all-3} (none with a unit axis) on three "
+             "backends; the AST must contain only whitelisted straight-line node types, and the two ASTs of a pair must be equal after blanking integer literals, with equal Call counts.",
+        note="Numeric literals of the description are part of the description; quick uses three of the five assignments. " + LIMITS,
+        technique="bounded exhaustive enumeration of descriptions x size-assignment pairs with AST comparison",
+        design="4/C17"),
     "C11": dict(
         level="model_checking",
         text="Explicit-state breadth-first search over event histories (register, register_on_import with healthy/failing factories, module import, every lookup form, "
